@@ -195,7 +195,9 @@ static int stream_cb(tp_task_p tptask, int error, io_buf_p buf, uint32_t eof, si
 		if (t->kind == K_RECV && !t->faults_seen) {
 			/* bytes that had arrived before the connection broke are still readable and belong to the callback */
 			size_t want = t->peer_sent < t->init_tr ? t->peer_sent : t->init_tr;
-			if (t->done < want) {
+			/* callback-after-every-read reports after ONE recv; if the kernel cut that recv short (injected) the
+			 * rest is still in the socket when the error is handed over - nothing the task could have known */
+			if (t->done < want && !((t->tflags & TP_TASK_F_CB_AFTER_EVERY_READ) && sim_fault_fired_site("recv.short") > 0)) {
 				sim_violation("io-data-lost-at-error", "task %d (evfl %x flags %x): error %d reported with %zu byte(s) delivered in total although %zu byte(s) had arrived before the peer reset and the window still has %zu free", t->slot, t->evfl, t->tflags,
 				    error, t->done, t->peer_sent, buf->transfer_size);
 				return TP_TASK_CB_NONE;
@@ -656,6 +658,11 @@ static void gen_peer_script(plan_t *p, rng_t *r, int tier, int slot, int kind, i
 			item_t *f = op_add_fault(op, (kind == K_SEND) ? "send" : (kind == K_DGRAM) ? "recvfrom" : (kind == K_ACCEPT) ? "accept4" : "recv");
 			if (f) { item_set(f, "nth", 1); item_set(f, "err", errs[rng_below(r, 4)]); item_set(f, "anyop", 1); }
 		}
+		if ((kind == K_SEND || kind == K_RECV) && rng_chance(r, 150)) {
+			/* short transfer: the kernel takes / hands over only part of what is possible */
+			item_t *f = op_add_fault(op, (kind == K_SEND) ? "send.short" : "recv.short");
+			if (f) { item_set(f, "nth", (long long)rng_range(r, 1, 3)); item_set(f, "err", (long long)rng_range(r, 1, 700)); item_set(f, "count", (long long)rng_range(r, 1, 2)); item_set(f, "anyop", 1); }
+		}
 	}
 	if (kind != K_ACCEPT && rng_chance(r, 550)) {
 		op_t *op = plan_add_op(p, "pclose");
@@ -801,6 +808,16 @@ static void *c16_root(void *arg) {
 			sim_violation("io-undelivered", "task %d (evfl %x flags %x timeout %llu ms): %zu byte(s) arrived and %zu byte(s) of window are free, but the callback was only told about %zu although the task is armed", s, t->evfl, t->tflags,
 			    (unsigned long long)t->timeout_ms, t->peer_sent, t->buf.transfer_size, t->done);
 			break;
+		}
+		if (t->kind == K_SEND && !t->faults_seen && !t->peer_closed) {
+			/* the peer has read every byte that was put on the wire, so the socket is writable: an armed send task
+			 * with bytes left in its window must have gone on (short sends are no excuse) */
+			size_t sent = t->done + (t->buf.offset - t->last_off);
+			if (sent < t->init_tr && t->peer_sent == sent) {
+				sim_violation("io-unsent", "task %d (evfl %x flags %x timeout %llu ms): armed send task emitted %zu of %zu byte(s), the peer has read all of them, the socket is writable, and nothing more happens", s, t->evfl, t->tflags,
+				    (unsigned long long)t->timeout_ms, sent, t->init_tr);
+				break;
+			}
 		}
 		if (t->kind == K_RECV && t->peer_closed && !t->eof_reported && !t->err_reported && t->buf.transfer_size > 0 && !t->faults_seen) {
 			sim_violation("io-eof-missed", "task %d (evfl %x): the peer closed but neither end of stream nor an error was reported to the armed task", s, t->evfl);
